@@ -61,6 +61,7 @@ class Driver:
         if logs:
             self.w.capture_logs()
         self.w.on_start.append(self._on_server_start)
+        self.w.on_end.append(self._on_server_end)
 
     # -- infrastructure
     def run(self):
@@ -118,6 +119,9 @@ class Driver:
     def _on_server_start(self, w):
         pass
 
+    def _on_server_end(self, w):
+        pass
+
     # -- chain helpers
     def rng_for(self, op):
         return random.Random(op.get('seed', 0))
@@ -133,17 +137,34 @@ class Driver:
             tip = w.gen.make_block(tip, rng, ntxs[i % len(ntxs)], include=include,
                                    big_at=op.get('big_at'), big=op.get('big', 0))
         w.daemon.set_tip(tip)
+        self.hmax = max(getattr(self, 'hmax', -1), tip.height)
         self.mark('mine', tip.height)
 
+    def fork_cap(self):
+        """Deepest fork the properties quantify over right now: within the reorg limit counted
+        from the highest height the daemon ever reported (every block above that fork point was
+        indexed with undo information) and on a chain at least twice as high as the fork is deep
+        (C03's quantifier; below that _calc_reorg_range walks to genesis)."""
+        w = self.w
+        d = w.daemon.height
+        self.hmax = max(getattr(self, 'hmax', -1), d)
+        return min(w.k['reorg_limit'] - (self.hmax - d), d // 2)
+
     def fork_now(self, op):
-        """Switch the daemon to a branch forking `depth` blocks below its tip."""
+        """Switch the daemon to a branch forking `depth` blocks below its tip.  `extra` is the
+        length of the new branch minus the depth (>= 1: strictly longer, the realistic case;
+        <= 0: equal or shorter, followed by a later extension)."""
         w = self.w
         rng = self.rng_for(op)
         chain = w.daemon.chain()
-        depth = max(1, min(op['depth'], len(chain) - 1))
+        cap = self.fork_cap()
+        if cap < 1:
+            self.probe('fork.skipped_by_quantifier')
+            return None
+        depth = max(1, min(op['depth'], cap))
         base = chain[len(chain) - 1 - depth]
         orphaned = [t for b in chain[len(chain) - depth:] for t in b.txs if not t.is_coinbase]
-        length = max(1, op.get('len', depth + 1))
+        length = max(1, depth + op.get('extra', 1))
         tip = base
         ntxs = op.get('ntx', [3])
         for i in range(length):
@@ -151,8 +172,11 @@ class Driver:
             rng.shuffle(include)
             tip = w.gen.make_block(tip, rng, ntxs[i % len(ntxs)], include=include)
         w.daemon.set_tip(tip)
+        self.hmax = max(self.hmax, tip.height)
         self.mark('fork', depth, length)
         self.probe('fork.depth%d' % min(depth, 9))
+        if length <= depth:
+            self.probe('fork.exotic')
         return depth, length
 
     def _bg(self, at, fn):
@@ -264,7 +288,11 @@ class Driver:
             return None
         mism, undo = val
         for m in mism:
-            if m.prop in props:
+            if self.ATTRIBUTE_TO:
+                # in this family every difference from a clean index is a failure of the property
+                # whose scenario it is (reorg, crash, shutdown ...)
+                self.violate(self.ATTRIBUTE_TO, m.clause, m.detail, m.keys)
+            elif m.prop in props:
                 self.violate(m.prop, m.clause, m.detail, m.keys)
             else:
                 self.res.notes.append(repr(m))
@@ -279,7 +307,8 @@ class Driver:
             h = srv.db.state.height if srv and srv.db and srv.db.state else None
             self.violate(self.LIVENESS_PROP, 'liveness.catchup',
                          f'not caught up within {op.get("limit") or self.SYNC_LIMIT} virtual s: '
-                         f'db height {h} daemon {self.w.daemon.height} exits {self.w.server_exits[-3:]}')
+                         f'db height {h} daemon {self.w.daemon.height} exits {self.w.server_exits[-3:]} '
+                         f'state {self.w.why_not_caught_up()}')
             return
         self.mark('sync', self.w.daemon.height)
         self.do_audit(self.AUDIT_PROPS)
@@ -292,6 +321,7 @@ class Driver:
 
     LIVENESS_PROP = 'C01'
     AUDIT_PROPS = ('C01', 'C02', 'C03')
+    ATTRIBUTE_TO = None
 
     def op_sigterm(self, op):
         self.w.sigterm()
